@@ -260,7 +260,7 @@ def rule_fn_result_sticky(F, ev, R, config, rule="R-FN-RESULT-STICKY"):
 
 
 # --------------------------------------------------------------------------- #
-# guard tables
+# guard tables (on quantified guard formulas, see logic.py)
 # --------------------------------------------------------------------------- #
 def err_sites(F, variant):
     out = []
@@ -273,206 +273,227 @@ def err_sites(F, variant):
     return out
 
 
-def bool_switch_edges(g, pred, truth):
-    """edges on which a boolean switch operand matching pred has value truth"""
-    es = []
-    for sw in g.switches:
-        t = sw["term"]
-        neg = False
-        while t[0] == "un" and t[1] == "Not":
-            t, neg = t[2], not neg
-        if pred(t):
-            es.append(g.bool_edges(sw, truth != neg))
-    return es
+def conj_find(conds, pred, under_exists=True):
+    """a conjunct (possibly under ∃ / inside ∧) satisfying pred"""
+    st = list(conds)
+    while st:
+        f = st.pop()
+        if pred(f):
+            return f
+        if f[0] == "and":
+            st.extend(f[1])
+        elif f[0] == "exists" and under_exists:
+            st.append(f[2])
+    return None
 
 
-def variant_switch_edges(g, body, pred, variant):
-    es = []
-    for sw in g.switches:
-        t = sw["term"]
-        if t[0] == "discr" and pred(t[1]):
-            yes, no = variant_edge(body, sw["block"], variant)
-            if yes:
-                es.append(yes)
-    return es
+def atom_call(f, suffix, positive=True):
+    """f is (¬)atom(call …suffix) with the given polarity -> the call term"""
+    if positive and f[0] == "atom" and f[1][0] == "call" and f[1][1].endswith(suffix):
+        return f[1]
+    if not positive and f[0] == "not" and f[1][0] == "atom" and f[1][1][0] == "call" and f[1][1][1].endswith(suffix):
+        return f[1][1]
+    return None
 
 
-def rel_edges(g, want_rel_pred):
-    """edges on which a comparison switch has a canonical relation satisfying pred"""
-    es = []
-    for sw in g.switches:
-        for truth in (True, False):
-            r = canon_rel(sw["term"], truth)
-            if r and want_rel_pred(r):
-                es.append(g.bool_edges(sw, truth))
-    return es
+def closure_env_chain(F, ev, b):
+    """[(body, env)] from the root function down to closure `b`, every closure's captures resolved
+    in its creator; the iterated argument of a closure is the placeholder ('elem', ('closure-arg', key))"""
+    chain = []
+    x = b
+    while x.kind == "Closure":
+        chain.append(x)
+        x = F.bodies[x.j["parent"]]
+    env = Env(x)
+    out = [(x, env)]
+    for c in reversed(chain):
+        ct = closure_terms_in(ev, env).get(c.key)
+        args = {2: ("elem", ("closure-arg", c.key))}
+        if ct is not None:
+            args[1] = ct
+        env = Env(c, args, env.depth + 1)
+        out.append((c, env))
+    return out
 
 
-def consumed_only_by(b, local, cid_suffix):
-    cons = consumers(b, local)
-    calls = [c for c in cons if c["kind"] == "call"]
-    return len(cons) == 1 and len(calls) == 1 and calls[0]["cid"].endswith(cid_suffix), (calls[0] if calls else None)
+def site_conditions(F, ev, L, b, bi):
+    """guard formulas at a construction site; a site inside a closure handed to
+    `ok_or_else` / `unwrap_or_else` additionally has `the receiver is absent`"""
+    if b.kind != "Closure":
+        return L.conditions_at(b, Env(b), bi), Env(b)
+    chain = closure_env_chain(F, ev, b)
+    conds = []
+    for (parent, penv), (child, cenv) in zip(chain, chain[1:]):
+        for pbi, t in parent.calls():
+            if "fn" in t and callee_id(t["fn"]).rsplit("::", 1)[-1] in ("ok_or_else", "unwrap_or_else", "or_else") and len(t["args"]) == 2:
+                clo = ev.operand(penv, t["args"][1], (pbi, None))
+                if clo[0] == "closure" and clo[1] == child.key:
+                    recv = ev.operand(penv, t["args"][0], (pbi, None))
+                    conds.append(L.of_option(recv, False))
+                    conds.extend(L.conditions_at(parent, penv, pbi))
+    cenv = chain[-1][1]
+    conds.extend(L.conditions_at(b, cenv, bi))
+    return conds, cenv
 
 
-def rule_build_guards(F, ev, R, config, rule="R-BUILD-GUARDS"):
-    ev = Eval(F, opaque=[b.key for b in builder_methods(F).values()])
+def rule_build_guards(F, ev_unused, R, config, rule="R-BUILD-GUARDS"):
+    import logic
+    boolfns = [k for k, b in F.bodies.items() if b.kind != "Closure" and b.j.get("output") == "bool"]
+    ev = Eval(F, opaque=[b.key for b in builder_methods(F).values()] + boolfns)
+    L = logic.Logic(ev)
 
-    def chk(variant, fn_pred, edges_fn, what, minimum=1):
+    def in_fn(name):
+        return lambda b: b.j.get("root", b.key).endswith(name)
+
+    def chk(variant, fn_pred, matcher, what, minimum=1):
         sites = [x for x in err_sites(F, variant) if fn_pred(x[0])]
         if len(sites) < minimum:
             R.bad(rule, config, "-", "missing:" + variant, "error `%s` (%s) is never produced where expected: the defect is not detected" % (variant, what))
         for b, bi, si, s in sites:
-            g = Guards(ev, b)
-            es = edges_fn(g, b)
-            ok = bool(es) and g.holds_on_all_paths_to(bi, es)
-            R.add(rule, config, b.key, "only-if:%s" % variant, ok, "" if ok else "Err(%s) can be produced although the specification is not defective in that way (%s)" % (variant, what), s.get("span"))
+            conds, env = site_conditions(F, ev, L, b, bi)
+            ok = False
+            try:
+                ok = bool(matcher(conds, b, env, s))
+            except Exception:
+                ok = False
+            R.add(rule, config, b.key, "only-if:%s" % variant, ok,
+                  "" if ok else "Err(%s) can be produced although the specification is not defective in that way (%s); conditions at the site: %s"
+                  % (variant, what, "; ".join(logic.show_f(c)[:90] for c in conds)[:400]), s.get("span"))
 
-    any_fn = lambda b: True
-    in_fn = lambda name: (lambda b: b.j.get("root", b.key).endswith(name))
-    # check_parameter_names
+    P1 = lambda b: ("param", b.key, 1)
+    P2 = lambda b: ("param", b.key, 2)
+    from rules_panic import nosite
+
+    # --- check_parameter_names -------------------------------------------------------
     chk("EmptyParameters", in_fn("check_parameter_names"),
-        lambda g, b: bool_switch_edges(g, lambda t: t[0] == "call" and t[1].endswith("::is_empty") and t[3][0] == ("param", b.key, 1), True), "name list empty")
+        lambda c, b, e, s: conj_find(c, lambda f: (lambda t: t is not None and t[3][0] == P1(b))(atom_call(f, "::is_empty", True))),
+        "name list empty")
     chk("CommaInParameterNameNotAllowed", in_fn("check_parameter_names"),
-        lambda g, b: variant_switch_edges(g, b, lambda t: contains(t, lambda x: x[0] == "call" and x[1].endswith("Iterator::find")), "Some"), "a name contains a comma")
+        lambda c, b, e, s: conj_find(c, lambda f: f[0] == "exists" and f[1] == P1(b) and logic.mentions(f[2], lambda x: x[0] == "call" and x[1].endswith("::contains"))
+                                      and logic.mentions(f[2], lambda x: x[0] == "const" and x[2] == 44) and f[2][0] != "not", under_exists=False),
+        "a name contains a comma")
     chk("DuplicateParameterNames", in_fn("check_parameter_names"),
-        lambda g, b: bool_switch_edges(g, lambda t: t[0] == "call" and t[1].endswith("Iterator::all") and contains(t, lambda x: x[0] == "call" and x[1].endswith("HashSet::insert") or x[0] == "closure"), False), "names not unique")
-    # the uniqueness helper really is all(insert into a fresh set)
-    for b in F.bodies.values():
-        if b.key.endswith("has_only_unique_elements"):
-            v = ev.ret_val(Env(b))
-            ok = v[0] == "call" and v[1].endswith("Iterator::all") and v[3][1][0] == "closure"
-            if ok:
-                cb = F.bodies[v[3][1][1]]
-                cv = ev.ret_val(Env(cb, {1: v[3][1], 2: ("sym", "x")}, 1))
-                ok = cv[0] == "call" and cv[1].endswith("HashSet::insert") and cv[3][1] == ("sym", "x")
-                capt = dict(v[3][1][2])
-                ok = ok and any(t[0] == "call" and t[1].endswith("HashSet::new") for t in capt.values())
-            R.add(rule, config, b.key, "unique⇔all(insert-into-fresh-set)", ok, "" if ok else "uniqueness test is `%s`" % short(v)[:120], b.j["span"])
-    # the comma test
-    for b in F.bodies.values():
-        if b.key.endswith("check_parameter_names::{closure#0}"):
-            v = ev.ret_val(Env(b, {2: ("sym", "p")}, 1))
-            ok = v[0] == "call" and v[1].endswith("::contains") and contains(v, lambda x: x == ("sym", "p")) and contains(v, lambda x: x[0] == "const" and x[2] == 44)
-            R.add(rule, config, b.key, "comma-predicate", ok, "" if ok else "comma test is `%s`" % short(v)[:120], b.j["span"])
-    # check_parameter_count
-    chk("IncorrectParameterCount", in_fn("check_parameter_count"),
-        lambda g, b: rel_edges(g, lambda r: r[0] == "Ne" and any(x[0] == "constitem" and x[1].endswith("ARGUMENT_COUNT") for x in (r[1], r[2]))
-                               and any(x[0] == "call" and x[1].endswith("::len") and x[3][0] == ("param", b.key, 1) for x in (r[1], r[2]))),
-        "function parameter list length ≠ arity")
-    # create_wrapped_basis_function checks names, arity and mapping before wrapping
-    for b in F.bodies.values():
-        if b.kind != "Closure" and b.key.endswith("create_wrapped_basis_function"):
-            g = Guards(ev, b)
-            oks = [bi for bi, si, s in b.stmts() if s["k"] == "assign" and s["place"]["l"] == 0 and s["rv"]["k"] == "agg" and s["rv"].get("variant") == "Ok"]
-            need = {"names(model)": False, "names(function)": False, "arity": False, "mapping": False}
-            for bi in oks:
-                rels, raw = g.relations_at(bi)
-                for term, vals, sw in raw:
-                    if term[0] != "discr" or not isinstance(vals, tuple):
-                        continue
-                    variants, _, _ = discr_variants(sw.get("body", b), sw["block"])
-                    names = dict(variants or [])
-                    if not all(names.get(x) == "Continue" for x in vals if x != "otherwise"):
-                        continue
-                    inner = term[1][1] if term[1][0] == "cf" else term[1]
-                    if contains(inner, lambda x: x[0] == "agg" and x[2] == "EmptyParameters"):
-                        if contains(inner, lambda x: x == ("param", b.key, 1)) and not contains(inner, lambda x: x == ("param", b.key, 2)):
-                            need["names(model)"] = True
-                        if contains(inner, lambda x: x == ("param", b.key, 2)) and not contains(inner, lambda x: x == ("param", b.key, 1)):
-                            need["names(function)"] = True
-                    if contains(inner, lambda x: x[0] == "agg" and x[2] == "IncorrectParameterCount"):
-                        need["arity"] = True
-                    if contains(inner, lambda x: x[0] == "call" and x[1].endswith("Iterator::position")) or contains(inner, lambda x: x[0] == "closure" and "create_index_mapping" in x[1]):
-                        need["mapping"] = True
-            for k, v in need.items():
-                R.add(rule, config, b.key, "wrapped-fn-needs:" + k, v, "" if v else "a function can be wrapped without the check `%s`" % k, b.j["span"])
-    # create_index_mapping: FunctionParameterNotInModel via ok_or_else on position()
-    for b, bi, si, s in err_sites(F, "FunctionParameterNotInModel"):
-        ok = False
-        if b.kind == "Closure":
-            parent = F.bodies[b.j["parent"]]
-            penv = Env(parent, {2: ("sym", "value")}, 1) if parent.kind == "Closure" else Env(parent)
-            for pbi, t in parent.calls():
-                if "fn" in t and callee_id(t["fn"]).endswith("Option::ok_or_else"):
-                    recv = ev.operand(penv, t["args"][0], (pbi, None))
-                    clo = ev.operand(penv, t["args"][1], (pbi, None))
-                    if clo[0] == "closure" and clo[1] == b.key and recv[0] == "call" and recv[1].endswith("Iterator::position"):
-                        ok = True
-        R.add(rule, config, b.key, "only-if:FunctionParameterNotInModel", ok, "" if ok else "error not tied to a failed lookup of the function parameter in the model list", s.get("span"))
-    # function builder partial_deriv
-    fb_pd = lambda b: b.j.get("impl", {}).get("self_adt") == ADT_FNBUILDER and b.j.get("root", b.key).endswith("partial_deriv")
-    chk("InvalidDerivative", fb_pd,
-        lambda g, b: variant_switch_edges(g, b, lambda t: contains(t, lambda x: x[0] == "call" and x[1].endswith("Iterator::find")), "None"),
+        lambda c, b, e, s: conj_find(c, lambda f: f[0] == "exists" and f[1] == P1(b) and f[2][0] == "not" and
+                                      atom_call(f[2][1], "HashSet::insert", True) is not None, under_exists=False),
+        "names not unique")
+    # --- check_parameter_count ---------------------------------------------------------
+    def arity_ne(c, b, e, s):
+        return conj_find(c, lambda f: f[0] == "rel" and f[1] == "Ne" and
+                         any(x[0] == "constitem" and x[1].endswith("ARGUMENT_COUNT") for x in (f[2], f[3])) and
+                         any(x[0] == "call" and x[1].endswith("::len") and x[3][0] == P1(b) for x in (f[2], f[3])))
+    chk("IncorrectParameterCount", in_fn("check_parameter_count"), arity_ne, "function parameter list length ≠ arity")
+    # --- create_index_mapping ------------------------------------------------------------
+    def not_in_model(c, b, e, s):
+        root = F.bodies[b.j.get("root", b.key)]
+        full = ("param", root.key, 1)
+        return conj_find(c, lambda f: f[0] == "forall" and f[1] == full and f[2][0] == "rel" and f[2][1] == "Ne" and ("item", full) in (f[2][2], f[2][3]))
+    chk("FunctionParameterNotInModel", in_fn("create_index_mapping"), not_in_model, "a function parameter is not a model parameter")
+    # --- function builder: partial_deriv ---------------------------------------------------
+    fb = lambda b: b.j.get("impl", {}).get("self_adt") == ADT_FNBUILDER or (b.kind == "Closure" and ADT_FNBUILDER in b.j.get("root", ""))
+    def invalid_deriv(c, b, e, s):
+        # ∀ m∈model_parameters. ¬(contains(function_parameters, m) ∧ m == parameter)
+        def ok(f):
+            if f[0] != "forall":
+                return False
+            dom = f[1]
+            if not (dom[0] == "field" and dom[1] == P1(F.bodies[b.j.get("root", b.key)])):
+                return False
+            return logic.mentions(f[2], lambda x: x == P2(F.bodies[b.j.get("root", b.key)])) and logic.mentions(f[2], lambda x: x[0] in ("item",))
+        return conj_find(c, ok, under_exists=False)
+    chk("InvalidDerivative", lambda b: fb(b) and b.j.get("root", b.key).endswith("partial_deriv"), invalid_deriv,
         "derivative for a name that is not a parameter of the function")
-    chk("DuplicateDerivative", fb_pd,
-        lambda g, b: bool_switch_edges(g, lambda t: t[0] == "is_ok" and contains(t, lambda x: x[0] == "call" and x[1].endswith("HashMap::insert")), True) +
-                     bool_switch_edges(g, lambda t: t[0] == "call" and t[1].endswith("::is_some") and contains(t, lambda x: x[0] == "call" and x[1].endswith("HashMap::insert")), True),
+    chk("DuplicateDerivative", lambda b: fb(b) and b.j.get("root", b.key).endswith("partial_deriv"),
+        lambda c, b, e, s: conj_find(c, lambda f: f[0] == "atom" and f[1][0] == "present" and f[1][1][0] == "call" and f[1][1][1].endswith("HashMap::insert")),
         "second derivative for the same parameter")
-    # check_completion
-    chk("MissingDerivative", lambda b: b.j.get("impl", {}).get("self_adt") == ADT_FNBUILDER,
-        lambda g, b: bool_switch_edges(g, lambda t: t[0] == "call" and t[1].endswith("HashMap::contains_key"), False), "a function parameter has no derivative")
+    chk("MissingDerivative", fb,
+        lambda c, b, e, s: conj_find(c, lambda f: atom_call(f, "HashMap::contains_key", False) is not None),
+        "a function parameter has no derivative")
     # build() of the function builder runs the completeness check before releasing the function
     for b in inherent_methods(F, ADT_FNBUILDER, "build"):
         v = ev.ret_val(Env(b))
         alts = v[1] if v[0] == "phi" else (v,)
-        ok = any(a[0] == "from_residual" for a in alts) and any(a[0] == "field" or a[0] == "mutated" or a[0] == "phi" for a in alts)
+        ok = any(is_absent_value(a) for a in alts) and any(not is_absent_value(a) for a in alts)
         calls = [callee_id(t["fn"]) for _, t in b.calls() if "fn" in t]
         ok = ok and any("check_completion" in c or c.endswith("Try::branch") for c in calls)
         R.add(rule, config, b.key, "function-released-only-after-completeness-check", ok, "" if ok else "function builder build() = `%s`" % short(v)[:160], b.j["span"])
-    # SeparableModelBuilder::initial_parameters
-    chk("IncorrectParameterCount", lambda b: b.j.get("impl", {}).get("self_adt") == ADT_MBUILDER,
-        lambda g, b: rel_edges(g, lambda r: r[0] == "Ne" and any(x[0] == "call" and x[1].endswith("::len") and x[3][0] == ("param", b.key, 2) for x in (r[1], r[2]))
-                               and any(x[0] == "call" and x[1].endswith("::len") and contains(x, lambda y: y[0] == "field" and y[2] == "parameter_names") for x in (r[1], r[2]))),
+    # --- SeparableModelBuilder::initial_parameters ------------------------------------------
+    def init_len(c, b, e, s):
+        return conj_find(c, lambda f: f[0] == "rel" and f[1] == "Ne" and
+                         any(x[0] == "call" and x[1].endswith("::len") and x[3][0] == P2(b) for x in (f[2], f[3])) and
+                         any(x[0] == "call" and x[1].endswith("::len") and contains(x, lambda y: y[0] == "field" and y[2] == "parameter_names") for x in (f[2], f[3])))
+    chk("IncorrectParameterCount", lambda b: b.j.get("impl", {}).get("self_adt") == ADT_MBUILDER, init_len,
         "initial guess length ≠ number of model parameters")
-    # try_into
-    ti = lambda b: b.j.get("impl", {}).get("self_adt") == ADT_UNFINISHED and b.j.get("root", b.key).endswith("try_into")
-    chk("EmptyModel", ti, lambda g, b: bool_switch_edges(g, lambda t: t[0] == "call" and t[1].endswith("::is_empty") and t[3][0] == ("field", ("param", b.key, 1), "basefunctions"), True), "no basis function")
-    chk("UnusedParameter", ti, lambda g, b: bool_switch_edges(g, lambda t: t[0] == "call" and t[1].endswith("Iterator::any") and contains(t, lambda x: x[0] == "field" and x[2] == "basefunctions"), False),
-        "a model parameter is used by no function")
-    for b in F.bodies.values():
-        if ti(b) and b.kind == "Closure":
-            v = ev.ret_val(Env(b, {2: ("sym", "function")}, 1))
-            ok = v[0] == "call" and v[1].endswith("HashMap::contains_key") and v[3][0] == ("field", ("sym", "function"), "derivatives")
-            R.add(rule, config, b.key, "used⇔some-function-has-derivative-key", ok, "" if ok else "usage test is `%s`" % short(v)[:120], b.j["span"])
+    # --- try_into -----------------------------------------------------------------------------
+    ti = lambda b: ADT_UNFINISHED in b.j.get("root", b.key) and b.j.get("root", b.key).endswith("try_into")
+    FN = lambda b: ("field", P1(F.bodies[b.j.get("root", b.key)]), "basefunctions")
+    NM = lambda b: ("field", P1(F.bodies[b.j.get("root", b.key)]), "parameter_names")
+    chk("EmptyModel", ti, lambda c, b, e, s: conj_find(c, lambda f: (lambda t: t is not None and t[3][0] == FN(b))(atom_call(f, "::is_empty", True))), "no basis function")
+
+    def unused_core(f, b, positive_use):
+        """∀ f∈functions. ¬contains_key(f.derivatives, idx(names))   (positive_use=False)
+           ∃ f∈functions.  contains_key(f.derivatives, idx(names))   (positive_use=True)"""
+        q = "exists" if positive_use else "forall"
+        if f[0] != q or f[1] != FN(b):
+            return False
+        t = atom_call(f[2], "HashMap::contains_key", positive_use)
+        return t is not None and t[3][0] == ("field", ("item", FN(b)), "derivatives") and t[3][1] == ("idx", NM(b))
+    chk("UnusedParameter", ti, lambda c, b, e, s: conj_find(c, lambda f: unused_core(f, b, False)), "a model parameter is used by no function")
+
     for variant, field in (("MissingX", "x_vector"), ("MissingInitialParameters", "initial_parameters")):
         sites = [x for x in err_sites(F, variant) if ti(x[0])]
         if not sites:
             R.bad(rule, config, "-", "missing:" + variant, "missing %s is not reported" % field)
         for b, bi, si, s in sites:
+            fld = ("field", P1(F.bodies[b.j.get("root", b.key)]), field)
             okc, c = consumed_only_by(b, s["place"]["l"], "Option::ok_or")
             ok = False
             if okc:
                 recv = ev.operand(Env(b), c["term"]["args"][0], (c["block"], None))
-                ok = recv == ("field", ("param", b.key, 1), field)
+                ok = recv == fld
+            if not ok:
+                conds, env = site_conditions(F, ev, L, b, bi)
+                ok = bool(conj_find(conds, lambda f: f[0] == "not" and f[1][0] == "atom" and f[1][1] == ("present", fld)))
             R.add(rule, config, b.key, "only-if:" + variant, ok, "" if ok else "%s not tied to the absence of `%s`" % (variant, field), s.get("span"))
-    # Ok(SeparableModel) dominated by all four validations
+    # Ok(SeparableModel) needs all validations
     for b in F.bodies.values():
         if ti(b) and b.kind != "Closure":
-            g = Guards(ev, b)
-            me = ("param", b.key, 1)
+            me = P1(b)
             for bi, si, s in b.stmts():
                 if s["k"] == "assign" and s["rv"]["k"] == "agg" and s["rv"].get("adt") == ADT_SEPMODEL:
-                    e1 = bool_switch_edges(g, lambda t: t[0] == "call" and t[1].endswith("::is_empty") and t[3][0] == ("field", me, "basefunctions"), False)
-                    ok1 = bool(e1) and g.holds_on_all_paths_to(bi, e1)
+                    conds = L.conditions_at(b, Env(b), bi)
+                    ok1 = bool(conj_find(conds, lambda f: (lambda t: t is not None and t[3][0] == FN(b))(atom_call(f, "::is_empty", False))))
                     R.add(rule, config, b.key, "model-needs:function", ok1, "" if ok1 else "a model without basis functions can be built", s.get("span"))
-                    # all parameters used: the loop over the names was exhausted (None edge of next) and no Err in between
-                    e2 = []
-                    for sw in g.switches:
-                        t = sw["term"]
-                        if t[0] == "discr" and t[1][0] == "opt" and contains(t[1], lambda x: x[0] == "has_next") and contains(t[1], lambda x: x[0] == "field" and x[2] == "parameter_names"):
-                            yes, no = variant_edge(b, sw["block"], "None")
-                            if yes:
-                                e2.append(yes)
-                    ok2 = bool(e2) and g.holds_on_all_paths_to(bi, e2)
-                    R.add(rule, config, b.key, "model-needs:all-parameters-checked", ok2, "" if ok2 else "the model can be built before every model parameter was checked for use", s.get("span"))
+                    ok2 = bool(conj_find(conds, lambda f: f[0] == "forall" and f[1] == NM(b) and unused_core(f[2], b, True), under_exists=False))
+                    R.add(rule, config, b.key, "model-needs:all-parameters-checked", ok2,
+                          "" if ok2 else "the model can be built before every model parameter was checked for use; conditions: %s" % "; ".join(logic.show_f(c)[:80] for c in conds)[:300], s.get("span"))
                     v = ev.rvalue(Env(b), s["rv"], (bi, si))
                     f = dict(v[3])
-                    okx = ok_of(f.get("x_vector")) == ("field", me, "x_vector")
+                    okx = ok_of(f.get("x_vector")) == ("field", me, "x_vector") or f.get("x_vector") == ("payload", ("field", me, "x_vector"), "ok", "0")
                     oki = contains(f.get("current_parameters"), lambda x: x == ("payload", ("field", me, "initial_parameters"), "ok", "0"))
                     R.add(rule, config, b.key, "model-needs:x", okx, "" if okx else "x is `%s`" % short(f.get("x_vector"))[:80], s.get("span"))
                     R.add(rule, config, b.key, "model-needs:initial-parameters", oki, "" if oki else "initial parameters are `%s`" % short(f.get("current_parameters"))[:80], s.get("span"))
                     okn = f.get("parameter_names") == ("field", me, "parameter_names") and f.get("basefunctions") == ("field", me, "basefunctions")
                     R.add(rule, config, b.key, "model-keeps-names-and-functions", okn, "" if okn else "names/functions are not carried over unchanged", s.get("span"))
+    # --- create_wrapped_basis_function: Ok only after names, arity and mapping were checked ------
+    for b in F.bodies.values():
+        if b.kind != "Closure" and b.key.endswith("create_wrapped_basis_function"):
+            oks = [bi for bi, si, s in b.stmts() if s["k"] == "assign" and s["place"]["l"] == 0 and s["rv"]["k"] == "agg" and s["rv"].get("variant") == "Ok"]
+            need = {"names(model)": False, "names(function)": False, "arity": False, "mapping": False}
+            for bi in oks:
+                conds = L.conditions_at(b, Env(b), bi)
+                for who, P in (("names(model)", P1(b)), ("names(function)", P2(b))):
+                    if conj_find(conds, lambda f: (lambda t: t is not None and t[3][0] == P)(atom_call(f, "::is_empty", False))) and \
+                            conj_find(conds, lambda f: f[0] == "forall" and f[1] == P and atom_call(f[2], "HashSet::insert", True) is not None, under_exists=False):
+                        need[who] = True
+                if conj_find(conds, lambda f: f[0] == "rel" and f[1] == "Eq" and any(x[0] == "constitem" and x[1].endswith("ARGUMENT_COUNT") for x in (f[2], f[3]))):
+                    need["arity"] = True
+                # mapping: every function parameter was found in the model list
+                if conj_find(conds, lambda f: f[0] == "forall" and f[1] == P2(b) and f[2][0] == "exists" and f[2][1] == P1(b), under_exists=False) or \
+                        conj_find(conds, lambda f: f[0] == "atom" and f[1][0] == "present" and contains(f[1], lambda x: x[0] == "call" and x[1].endswith("Iterator::collect")) and
+                                  contains(f[1], lambda x: x[0] == "closure" and "create_index_mapping" in x[1])):
+                    need["mapping"] = True
+            for k, v in need.items():
+                R.add(rule, config, b.key, "wrapped-fn-needs:" + k, v, "" if v else "a function can be wrapped without the check `%s`" % k, b.j["span"])
     # ModelBasisFunctionBuilder::new: invalid function parameter names end in Err
     for b in inherent_methods(F, ADT_FNBUILDER, "new"):
         v = ev.ret_val(Env(b))
@@ -480,3 +501,9 @@ def rule_build_guards(F, ev, R, config, rule="R-BUILD-GUARDS"):
         ok = len(alts) == 2 and all(a[0] == "agg" and a[1] == ADT_FNBUILDER for a in alts)
         R.add(rule, config, b.key, "new: invalid names ⇒ Err result", ok, "" if ok else "`%s`" % short(v)[:160], b.j["span"])
     R.floor(rule, config, 24, "error sites and success conditions of the eight validating functions")
+
+
+def consumed_only_by(b, local, cid_suffix):
+    cons = consumers(b, local)
+    calls = [c for c in cons if c["kind"] == "call"]
+    return len(cons) == 1 and len(calls) == 1 and calls[0]["cid"].endswith(cid_suffix), (calls[0] if calls else None)
